@@ -2,6 +2,7 @@ package checks
 
 import (
 	"fmt"
+	"math/rand"
 
 	"github.com/nspcc-dev/dbft"
 	"github.com/nspcc-dev/dbft/verifh/ev"
@@ -30,6 +31,26 @@ func C05(r *ev.Run) {
 func C12(r *ev.Run) {
 	r.SetRule(ruleRuns + "a backup was given every transaction it had requested for a stored proposal (an obligation completed), or a view change happened inside an OnTransaction call")
 	plan := []Plan{{"missing-tx", 4000, 150000}, {"async-benign", 500, 20000}, {"byz", 500, 20000}}
+	if Only < 0 {
+		// directed regression scenario of the repaired stale-index defect (DESIGN.md §5.5)
+		// and seeded variations of its shape (N, transaction counts, supply orders, anti-MEV)
+		rng := rand.New(rand.NewSource(r.Seed + 12))
+		for i := 0; i < r.Pick(300, 5000); i++ {
+			m := mon.NewOblig()
+			var b *Built
+			if i == 0 {
+				b = DirectedNestedTx(nil, m)
+				SampleRun(r, b, "directed scenario "+b.Spec.Profile)
+			} else {
+				b = DirectedNestedTx(rng, m)
+			}
+			Report(r, b, m.Viols)
+			Account(r, b, m.Cnt)
+			if m.Cnt["requests-issued-for-new-view-inside-OnTransaction"] > 0 {
+				r.Distinct(mon.AbstractTrace(b.C))
+			}
+		}
+	}
 	protoCheck(r, plan, func() (vnet.Monitor, func() ([]mon.V, map[string]int64)) {
 		m := mon.NewOblig()
 		return m, func() ([]mon.V, map[string]int64) { return m.Viols, m.Cnt }
@@ -40,7 +61,7 @@ func C12(r *ev.Run) {
 	r.Floor("requested-transactions-supplied", 2000)
 	r.Floor("obligations-completed", 1000)
 	r.Floor("view-changes-inside-OnTransaction", 20)
-	r.Floor("requests-issued-for-new-view-inside-OnTransaction", 3)
+	r.Floor("requests-issued-for-new-view-inside-OnTransaction", 100)
 }
 
 // probes builds one inadmissible / repeated input for node n in its current state.
@@ -175,6 +196,15 @@ func C11(r *ev.Run) {
 	r.SetRule(ruleRuns + "at least one inadmissible or repeated input was injected into a reachable state and its effect judged; the no-panic half executes generated API call sequences in child processes (see counters fuzz:*)")
 	plan := []Plan{{"async-benign", 900, 40000}, {"byz", 900, 40000}, {"missing-tx", 300, 10000}, {"valset", 300, 10000}, {"sync-perm", 300, 10000}}
 	r.Assume("transport authenticity for the run itself; the injected probes are arbitrary well-typed inputs")
+	if Only < 0 {
+		// seeded variations of the nested-view-change-inside-OnTransaction history (DESIGN.md §5.5): no panic
+		rng := rand.New(rand.NewSource(r.Seed + 12))
+		for i := 0; i < r.Pick(300, 5000); i++ {
+			b := DirectedNestedTx(rng, &mon.Hygiene{})
+			Account(r, b)
+			r.Count("directed-nested-tx-variants", 1)
+		}
+	}
 	RunPlan(r, plan, func(s Spec) {
 		m := &mon.Hygiene{}
 		b := Build(s, m)
